@@ -4,6 +4,7 @@ VARIABLES tid, l
 Traces == JsonDeserialize(IOEnv.TRACE_FILE)
 T == Traces[tid]
 Ev == T[l]
+Prop == IOEnv.PROP     \* "C02": structural closure;  "C07": itext closure of every render (elements carry translations)
 Check(name, cond) == IF cond THEN TRUE ELSE (PrintT(<<"AT", tid, l, name>>) /\ FALSE)
 TInit == tid \in 1..Len(Traces) /\ l = 1 /\ SOInit
 TAdd == /\ l <= Len(T) /\ Ev.op \in {"add_root", "add_group"}
@@ -13,7 +14,8 @@ TRender == /\ l <= Len(T) /\ Ev.op = "render" /\ Render
            /\ Check("no_crash", Ev.outcome \in {"ok", "rejected"})
            /\ Check("ambiguous_tree_rejected_on_every_render", Ambiguous => Ev.outcome = "rejected")
            /\ Check("unambiguous_tree_renders", ~Ambiguous => Ev.outcome = "ok")
-           /\ Check("closure_of_what_was_rendered", Ev.outcome = "ok" => (Ev.unique_siblings /\ Ev.binds_once /\ Ev.controls_once /\ Ev.closure))
+           /\ (Prop = "C02" => Check("closure_of_what_was_rendered", Ev.outcome = "ok" => (Ev.unique_siblings /\ Ev.binds_once /\ Ev.controls_once /\ Ev.closure)))
+           /\ (Prop = "C07" => Check("itext_closed_on_every_render", Ev.outcome = "ok" => (Ev.refs_resolve /\ Ev.same_ids /\ Ev.has_refs)))
            /\ l' = l + 1 /\ UNCHANGED tid
 TSpec == TInit /\ [][TAdd \/ TRender]_<<svars, tid, l>>
 Accepted == (l = Len(T) + 1) => PrintT(<<"ACCEPT", tid>>)
